@@ -1,8 +1,24 @@
 #!/bin/bash
 # MANIFEST.setup_cmd: offline build of the whole harness from files on disk.
-set -eu
+# Builds all check binaries at once; if that fails (one broken check must not take
+# the others down) falls back to building them one by one. Each ./check rebuilds its
+# own binary anyway, so a failure here only costs time.
+set -u
 ROOT="$(cd "$(dirname "${BASH_SOURCE[0]}")" && pwd)"
 export CARGO_NET_OFFLINE=true
 export CARGO_TARGET_DIR="${CARGO_TARGET_DIR:-$ROOT/target}"
-cd "$ROOT/harness"
-cargo build --profile verif --offline --bins 2>&1 | tail -5
+cd "$ROOT/harness" || exit 2
+if cargo build --profile verif --offline --bins 2>&1 | tail -3; [ "${PIPESTATUS[0]}" -eq 0 ]; then
+  echo "setup: all check binaries built"; exit 0
+fi
+echo "setup: bulk build failed, building binaries one by one"
+rc=0
+for f in checks/src/bin/*.rs; do
+  b="$(basename "$f" .rs)"
+  if ! cargo build --profile verif --offline --bin "$b" >/dev/null 2>&1; then
+    echo "setup: WARNING binary $b does not build"; rc=1
+  fi
+done
+# vcore must build, otherwise nothing can run
+cargo build --profile verif --offline -p vcore >/dev/null 2>&1 || exit 2
+exit 0
